@@ -239,21 +239,41 @@ theorem getAt_ofList (xs : List Nat) (i : Nat) (m : Mem) :
   rw [getNodeAt_ofList]
   by_cases h : i < xs.length <;> simp [h, Ptr.valid, data_some]
 
-theorem contains_ofList (xs : List Nat) (x : Nat) : contains (ofList t xs) x = LSeq.contains xs x := by
-  simp [contains, LSeq.contains]
-theorem containsValue_ofList (cmp : Nat → Nat → Int) (xs : List Nat) (x : Nat) :
-    containsValue cmp (ofList t xs) x = LSeq.containsValue cmp xs x := by
-  simp [containsValue, LSeq.containsValue]
-theorem indexOf_ofList (xs : List Nat) (x : Nat) :
-    indexOf (ofList t xs) x = LSeq.indexOf LSeq.cmpNum xs x := by
-  simp only [indexOf, LSeq.indexOf, forward_ofList]
-  have : (fun y => LSeq.cmpNum y x == 0) = (fun y => y == x) := by
+theorem contains_ofList (xs : List Nat) (x : Nat) (m : Mem) : contains (ofList t xs) x m = (LSeq.contains xs x, m) := by
+  simp only [contains, LSeq.contains, ofList_nodes]
+  rw [ofList_head_ptrAt, countLoop_ofList xs _ m xs.length 0 0 (by omega)]
+  simp [List.count]
+theorem containsValue_ofList (cmp : Nat → Nat → Int) (xs : List Nat) (x : Nat) (m : Mem) :
+    containsValue cmp (ofList t xs) x m = (LSeq.containsValue cmp xs x, m) := by
+  simp only [containsValue, LSeq.containsValue, ofList_nodes]
+  rw [ofList_head_ptrAt, countLoop_ofList xs _ m xs.length 0 0 (by omega)]
+  simp
+theorem indexOf_ofList (xs : List Nat) (x : Nat) (m : Mem) :
+    indexOf (ofList t xs) x m = ((LSeq.indexOf LSeq.cmpNum xs x).1, (LSeq.indexOf LSeq.cmpNum xs x).2, m) := by
+  have hf : (fun y => LSeq.cmpNum y x == 0) = (fun y => y == x) := by
     funext y; unfold LSeq.cmpNum
     by_cases h1 : y < x <;> by_cases h2 : x < y <;> simp [h1, h2] <;> omega
-  rw [this]
-  cases xs.findIdx? fun y => y == x <;> rfl
-theorem foreach_ofList (xs : List Nat) : foreach (ofList t xs) = xs := by simp [foreach]
+  simp only [indexOf, LSeq.indexOf, ofList_nodes, hf]
+  rw [ofList_head_ptrAt, indexLoop_ofList xs _ m xs.length 0 0 (by omega)]
+  simp only [List.drop_zero]
+  cases xs.findIdx? fun y => y == x <;> simp
+theorem foreach_ofList (xs : List Nat) (m : Mem) : foreach (ofList t xs) m = (xs, m) := by
+  simp only [foreach, ofList_nodes]
+  rw [ofList_head_ptrAt, foreachLoop_ofList xs m xs.length 0 (by omega)]
+  simp
 
+theorem reverseLoop_spec : ∀ (k : Nat) (prev fl : List Nat), fl.length ≤ k →
+    reverseLoop k prev fl = (fl.reverse ++ prev, [])
+  | 0, prev, fl, h => by
+    have : fl = [] := by simpa using h
+    subst this; rfl
+  | k + 1, prev, [], _ => rfl
+  | k + 1, prev, x :: fl, h => by
+    simp only [reverseLoop]
+    rw [reverseLoop_spec k (x :: prev) fl (by simpa using h)]
+    simp
+
+/-- the pointer-turning loop of `cc_slist_reverse` produces the reversed chain with `head`/`tail` right -/
 theorem reverse_ofList (xs : List Nat) : reverse (ofList t xs) = ofList t xs.reverse := by
   unfold reverse
   by_cases h : xs.length < 2
@@ -264,7 +284,12 @@ theorem reverse_ofList (xs : List Nat) : reverse (ofList t xs) = ofList t xs.rev
     rw [this]
     rcases (show xs.length = 0 ∨ xs.length = 1 by omega) with h' | h' <;> simp [h']
   · have h0 : xs.length ≠ 0 := by omega
+    have hx : xs ≠ [] := by intro e; subst e; simp at h0
     rw [if_neg (by
       simp only [ofList_size, Bool.or_eq_true]
       intro hc; rcases hc with hc | hc <;> (have := of_decide_eq_true hc; omega))]
-    simp [ofList, Chain.flip, Ptr.rev, Ptr.valid, h0, Nat.pos_of_ne_zero h0]
+    have hw : (ofList t xs).walk (ofList t xs).head = xs := by simp [ofList, Chain.walk, h0]
+    rw [hw, ofList_nodes, reverseLoop_spec _ _ _ (Nat.le_refl _)]
+    simp [ofList, h0, hx]
+
+end CC.SList
